@@ -127,7 +127,7 @@ def outcomes(fn, pv):
             if s["k"] == "assign" and s["dst"]["l"] == 0 and not s["dst"]["p"]:
                 t = pv.rvalue_term(s["rv"], bi, si)
                 o = _classify(t, bi, si, fn, pv)
-                out.extend(_expand_combinators(o, fn, pv) or [o])
+                out.extend(_split_value_phi(o, s, fn, pv) or _expand_combinators(o, fn, pv) or [o])
         t = b["term"]
         if t["k"] == "call" and t["dest"]["l"] == 0 and not t["dest"]["p"]:
             ct = pv.call_term(bi)
@@ -171,6 +171,22 @@ def _expand_combinators(o, fn, pv):
             res.append(o2)
         return res
     return None
+
+
+def _split_value_phi(o, stmt, fn, pv):
+    """`return R` where R has several definitions (the result of an inlined helper that returns early in places): one
+    outcome per definition, located at the definition"""
+    if o["kind"] != "value" or o["term"][0] != "phi" or stmt["rv"]["k"] != "use":
+        return None
+    from .codec import _def_stmts
+    res = []
+    for term, dbb, payload in _def_stmts(pv, stmt["rv"]["op"], o["bb"], o["idx"]):
+        if term[0] == "phi":
+            return None
+        o2 = _classify(term, dbb, "term", fn, pv)
+        o2["via"] = o["bb"]
+        res.extend(_split_propagate(o2, fn, pv) or _expand_combinators(o2, fn, pv) or [o2])
+    return res
 
 
 def _split_propagate(o, fn, pv, depth=0):
@@ -279,7 +295,7 @@ class TooManyPaths(Exception):
     pass
 
 
-def path_rows(fn, pv, limit=4000):
+def path_rows(fn, pv, limit=4000, precise=False):
     """every acyclic entry-to-return path of a (loop-free) function as a row
         {"conds": [edge conditions in path order], "term": value of the return place on that path, "kind", "bb"}
     Unlike conditions(), which keeps only the decisions common to ALL paths into a block, this keeps arms that share
@@ -329,6 +345,20 @@ def path_rows(fn, pv, limit=4000):
         path = path + [bb]
         t = fn.blocks[bb]["term"]
         k = t["k"]
+        if k == "return" and precise:
+            # terms and conditions recomputed along this very path (no merging of definitions from other paths)
+            from .prov import PathProv
+            pp = PathProv(fn, path)
+            pp.discr_adt = pv.discr_adt
+            term = pp.local_term(0, bb, "term")
+            cs = []
+            for i in range(len(path) - 1):
+                c = edge_condition(fn, pp, path[i], path[i + 1])
+                if c is not None:
+                    cs.append(c)
+            o = _classify(term, bb, "term", fn, pp)
+            rows.append({"conds": cs, "term": o["term"], "kind": o["kind"], "inner": o["inner"], "bb": bb, "path": path, "pv": pp})
+            return
         if k == "return":
             d = last_ret_def(path)
             if d is None:
